@@ -4,7 +4,11 @@
  * static hwaccel choice can be printed as L2.  With -DH_AES_RK (AES-NI build) crypto_aes_aesni.c is
  * #included as well and `expand` prints the round keys.
  */
+#define _DEFAULT_SOURCE 1
 #include "hcommon.h"
+
+#include <sys/mman.h>
+#include <unistd.h>
 
 #include "crypto_aes.h"
 #include "crypto_aesctr.c"
@@ -52,13 +56,21 @@ expand(const char * hex)
 }
 
 static void
-print_l2(void)
+print_l2_fields(void)
 {
 
-	printf(" | ctr=%llu pblk=", (unsigned long long)S->bytectr);
+	printf(" ctr=%llu pblk=", (unsigned long long)S->bytectr);
 	hc_puthex(S->pblk, 16);
 	printf(" buf=");
 	hc_puthex(S->buf, 16);
+}
+
+static void
+print_l2(void)
+{
+
+	printf(" |");
+	print_l2_fields();
 }
 
 static uint64_t
@@ -70,6 +82,148 @@ fnv1a(const uint8_t * b, size_t n)
 	for (i = 0; i < n; i++)
 		h = (h ^ b[i]) * 0x100000001b3ULL;
 	return (h);
+}
+
+/*
+ * A buffer of EXACTLY off + len bytes whose data part starts `off` (0..15) bytes after a 16-byte boundary:
+ * the library sees a pointer of that alignment, ASan still sees any access past the data.
+ */
+static uint8_t *
+at_offset(size_t off, const uint8_t * src, size_t len, void ** base)
+{
+	void * b;
+
+	if (posix_memalign(&b, 16, off + len ? off + len : 1) != 0)
+		abort();
+	if (src != NULL && len > 0)
+		memcpy((uint8_t *)b + off, src, len);
+	*base = b;
+	return ((uint8_t *)b + off);
+}
+
+/* parse an alignment offset 0..15; -1 if it is not one */
+static int
+offset_of(const char * s)
+{
+	char * end;
+	unsigned long v;
+
+	if (s[0] < '0' || s[0] > '9')
+		return (-1);
+	v = strtoul(s, &end, 10);
+	if (*end != '\0' || v > 15)
+		return (-1);
+	return ((int)v);
+}
+
+/*
+ * `bigstream <nonce> <n> <tail> [again]`: a fresh stream (current key, nonce); ONE crypto_aesctr_stream() call of n zero
+ * bytes, 16 <= n <= 2^32 + 2^20, in place in a lazily mapped anonymous buffer that ENDS at a PROT_NONE page (an
+ * overrun faults; the start is n mod 4096 bytes into a page, so its alignment varies with n); then a second call
+ * of `tail` zero bytes (exact-size heap blocks).  Printed: fixed windows of the big output (BIGWIN: the first 64
+ * bytes, 64 bytes around every multiple of 2^30, the last 48 bytes -- the driver computes the same windows with
+ * Spec.Ctr.streamAt, which jumps to any position), the output of the tail call, and with `again` whether
+ * decrypting the whole buffer in calls of 2^20 - 1 bytes with a second stream object gives back all zeros.
+ * L2: bytectr / pblk / buf after each of the two calls.
+ */
+#define BIGLIM (((size_t)1 << 32) + ((size_t)1 << 20))
+#define BIGTAIL 65536
+#define BIGSTEP ((size_t)1 << 30)
+
+static void
+big_window(const uint8_t * p, size_t n, size_t off, size_t len)
+{
+
+	if (off >= n)
+		return;
+	if (len > n - off)
+		len = n - off;
+	printf(" @%zu:", off);
+	hc_puthex(p + off, len);
+}
+
+static void
+bigstream(uint64_t nonce, size_t n, size_t tail, int again)
+{
+	struct crypto_aesctr * S2;
+	size_t page = (size_t)sysconf(_SC_PAGESIZE);
+	size_t maplen = (n + page - 1) / page * page;
+	uint8_t * map, * p, * tin, * tout;
+	size_t k, pos, l, bad;
+	uint64_t ctr1;
+	uint8_t pblk1[16], buf1[16];
+
+	map = mmap(NULL, maplen + page, PROT_READ | PROT_WRITE, MAP_PRIVATE | MAP_ANONYMOUS | MAP_NORESERVE, -1, 0);
+	if (map == MAP_FAILED || mprotect(map + maplen, page, PROT_NONE) != 0)
+		abort();
+	p = map + (maplen - n);
+
+	crypto_aesctr_free(S);
+	if ((S = crypto_aesctr_init(curkey, nonce)) == NULL)
+		abort();
+	memset(S->buf, 0xa5, 16);	/* as in `init` */
+	memset(S->pblk + 8, 0xa5, 7);
+
+	alarm(900);		/* a call that never returns is a failure, not a hang of the check */
+	crypto_aesctr_stream(S, p, p, n);
+	ctr1 = S->bytectr;
+	memcpy(pblk1, S->pblk, 16);
+	memcpy(buf1, S->buf, 16);
+
+	printf("n=%zu", n);
+	big_window(p, n, 0, 64);
+	for (k = 1; k * BIGSTEP - 32 < n; k++)
+		big_window(p, n, k * BIGSTEP - 32, 64);
+	big_window(p, n, n > 48 ? n - 48 : 0, 48);
+
+	/* the second call on the same stream object */
+	tin = calloc(tail ? tail : 1, 1);
+	tout = malloc(tail ? tail : 1);
+	crypto_aesctr_stream(S, tin, tout, tail);
+	printf(" tail=");
+	hc_puthex(tout, tail);
+	free(tin);
+	free(tout);
+
+	/* every byte, not only the windows: the same keystream cut into other calls must cancel it */
+	if (again) {
+		if ((S2 = crypto_aesctr_init(curkey, nonce)) == NULL)
+			abort();
+		for (pos = 0; pos < n; pos += l) {
+			l = ((size_t)1 << 20) - 1;
+			if (l > n - pos)
+				l = n - pos;
+			crypto_aesctr_stream(S2, p + pos, p + pos, l);
+		}
+		crypto_aesctr_free(S2);
+		for (bad = 0; bad < n; bad++) {
+			uint64_t w;
+
+			if (n - bad >= 8) {
+				memcpy(&w, p + bad, 8);
+				if (w == 0) {
+					bad += 7;
+					continue;
+				}
+			}
+			if (p[bad] != 0)
+				break;
+		}
+		if (bad == n)
+			printf(" again=zero");
+		else
+			printf(" again=nonzero@%zu", bad);
+	}
+	alarm(0);
+
+	printf(" | ctr=%llu pblk=", (unsigned long long)ctr1);
+	hc_puthex(pblk1, 16);
+	printf(" buf=");
+	hc_puthex(buf1, 16);
+	printf(" then");
+	print_l2_fields();
+	if (munmap(map, maplen + page) != 0)
+		abort();
 }
 
 int
@@ -101,23 +255,36 @@ main(void)
 					printf(" | rk=software");
 #endif
 			}
-		} else if (hc_is("block", 1)) {
+		} else if (hc_is("block", 1) || hc_is("block", 3) ||
+		    (hc_is("block", 4) && !strcmp(hc_tok[4], "inplace"))) {
+			/* block <hex> [<inoff> <outoff> [inplace]]: the pointers are inoff / outoff past a 16-byte boundary */
+			int ioff = hc_ntok > 2 ? offset_of(hc_tok[2]) : 0;
+			int ooff = hc_ntok > 2 ? offset_of(hc_tok[3]) : 0;
+			void * ibase, * obase;
+			uint8_t * ip, * op;
+
 			in = hc_unhex(hc_tok[1], &len);
-			if (curkey == NULL || len != 16)
+			if (curkey == NULL || len != 16 || ioff < 0 || ooff < 0 || (hc_ntok == 5 && ioff != ooff))
 				printf("skip");
 			else {
-				out = malloc(16);
-				crypto_aes_encrypt_block(in, out, curkey);
-				hc_puthex(out, 16);
+				ip = at_offset((size_t)ioff, in, 16, &ibase);
+				if (hc_ntok == 5) {
+					obase = NULL;
+					op = ip;
+				} else
+					op = at_offset((size_t)ooff, NULL, 16, &obase);
+				crypto_aes_encrypt_block(ip, op, curkey);
+				hc_puthex(op, 16);
 #ifdef H_AES_RK
 				/* L2: what the AES-NI instruction sequence produced (or not) */
 				printf(" | ni=");
 				if (crypto_aes_can_use_intrinsics() == 1)
-					hc_puthex(out, 16);
+					hc_puthex(op, 16);
 				else
 					printf("software");
 #endif
-				free(out);
+				free(ibase);
+				free(obase);
 			}
 			free(in);
 		} else if (hc_is("init", 1)) {
@@ -151,21 +318,31 @@ main(void)
 					print_l2();
 				}
 			}
-		} else if (hc_is("stream", 1) || (hc_is("stream", 2) && !strcmp(hc_tok[2], "inplace"))) {
+		} else if (hc_is("stream", 1) || (hc_is("stream", 2) && !strcmp(hc_tok[2], "inplace")) ||
+		    (hc_is("stream", 3) && (!strcmp(hc_tok[2], "inplace") ? offset_of(hc_tok[3]) >= 0 :
+		    (offset_of(hc_tok[2]) >= 0 && offset_of(hc_tok[3]) >= 0)))) {
+			/*
+			 * stream <hex>                      separate exact-size blocks, both 16-aligned
+			 * stream <hex> inplace [<off>]      one buffer, off (default 0) past a 16-byte boundary
+			 * stream <hex> <inoff> <outoff>     separate buffers, each with its own alignment
+			 */
 			if (S == NULL)
 				printf("skip");
 			else {
+				int inpl = hc_ntok >= 3 && !strcmp(hc_tok[2], "inplace");
+				int ioff = hc_ntok == 4 ? offset_of(hc_tok[inpl ? 3 : 2]) : 0;
+				int ooff = hc_ntok == 4 ? offset_of(hc_tok[3]) : 0;
+				void * ibase, * obase = NULL;
+				uint8_t * ip, * op;
+
 				in = hc_unhex(hc_tok[1], &len);
-				if (hc_ntok == 3) {
-					crypto_aesctr_stream(S, in, in, len);
-					hc_puthex(in, len);
-				} else {
-					out = malloc(len ? len : 1);
-					crypto_aesctr_stream(S, in, out, len);
-					hc_puthex(out, len);
-					free(out);
-				}
+				ip = at_offset((size_t)ioff, in, len, &ibase);
+				op = inpl ? ip : at_offset((size_t)ooff, NULL, len, &obase);
+				crypto_aesctr_stream(S, ip, op, len);
+				hc_puthex(op, len);
 				free(in);
+				free(ibase);
+				free(obase);
 				print_l2();
 			}
 		} else if (hc_is("seek", 1)) {
@@ -194,17 +371,33 @@ main(void)
 				free(out);
 				print_l2();
 			}
-		} else if (hc_is("buf", 2)) {
+		} else if (hc_is("bigstream", 3) || (hc_is("bigstream", 4) && !strcmp(hc_tok[4], "again"))) {
+			nonce = strtoull(hc_tok[1], NULL, 10);
+			n = strtoull(hc_tok[2], NULL, 10);
+			len = strtoull(hc_tok[3], NULL, 10);
+			if (curkey == NULL || n < 16 || n > BIGLIM || len > BIGTAIL)
+				printf("skip");
+			else
+				bigstream(nonce, n, len, hc_ntok == 5);
+		} else if (hc_is("buf", 2) || (hc_is("buf", 4) && offset_of(hc_tok[3]) >= 0 && offset_of(hc_tok[4]) >= 0)) {
+			/* buf <nonce> <hex> [<inoff> <outoff>] */
 			if (curkey == NULL)
 				printf("skip");
 			else {
+				int ioff = hc_ntok == 5 ? offset_of(hc_tok[3]) : 0;
+				int ooff = hc_ntok == 5 ? offset_of(hc_tok[4]) : 0;
+				void * ibase, * obase;
+				uint8_t * ip, * op;
+
 				nonce = strtoull(hc_tok[1], NULL, 10);
 				in = hc_unhex(hc_tok[2], &len);
-				out = malloc(len ? len : 1);
-				crypto_aesctr_buf(curkey, nonce, in, out, len);
-				hc_puthex(out, len);
+				ip = at_offset((size_t)ioff, in, len, &ibase);
+				op = at_offset((size_t)ooff, NULL, len, &obase);
+				crypto_aesctr_buf(curkey, nonce, ip, op, len);
+				hc_puthex(op, len);
 				free(in);
-				free(out);
+				free(ibase);
+				free(obase);
 			}
 		} else if (hc_is("free", 0)) {
 			if (S == NULL)
